@@ -701,6 +701,50 @@ func c07Scenarios(tier string) []*world.Scenario {
 			}
 		}
 	}
+	// sweeps over the NUMBERS the merged reply carries: element counts 1..130 and around 256 / 1000 / 1024 over two and
+	// three nodes, value lengths 0..300 and around the powers of ten and two (closed loop, default schedule)
+	{
+		var sweep []Req
+		ns := []int{}
+		for n := 2; n <= 130; n++ {
+			ns = append(ns, n)
+		}
+		ns = append(ns, 254, 255, 256, 257, 258, 998, 999, 1000, 1001, 1002, 1023, 1024, 1025)
+		for _, n := range ns {
+			var ks []string
+			for i := 0; i < n; i++ {
+				ks = append(ks, fmt.Sprintf("{%s}%d", []string{a, b, c}[i%(2+n%2)], i))
+			}
+			sweep = append(sweep, MGetReq(ks...), DelReq(ks...))
+		}
+		ls := []int{}
+		for L := 0; L <= 300; L++ {
+			ls = append(ls, L)
+		}
+		ls = append(ls, 511, 512, 513, 999, 1000, 1001, 1023, 1024, 1025, 4095, 4096, 4097, 9999, 10000, 10001, 65535, 65536, 65537)
+		for _, L := range ls {
+			// the node model's value for key k is "v:"+k: a key of L+1 bytes gives a value of L+3 bytes
+			k := "{" + a + "}" + strings.Repeat("x", L)
+			sweep = append(sweep, MGetReq(k, b))
+		}
+		const sb = 50
+		for i := 0; i < len(sweep); i += sb {
+			j := i + sb
+			if j > len(sweep) {
+				j = len(sweep)
+			}
+			cs := ClientOf(sweep[i:j], false)
+			for q := range cs.Chunks {
+				cs.Chunks[q].WaitReplies = q
+			}
+			sc := c07Scenario(fmt.Sprintf("number-sweep/batch%d", i/sb), sweep[i], nil, 0)
+			sc.Clients = []world.ClientSpec{cs}
+			sc.OrderSites = nil
+			sc.Family, sc.InputEnum = "number-sweep", true
+			sc.ReadCap, sc.WriteCap, sc.MaxLen, sc.Horizon = 65536, 65536, 4<<20, 1<<20
+			out = append(out, sc)
+		}
+	}
 	// the "thousands of keys" end of the quantifier: one long list over 3 nodes, all 6 routing orders x arrival orders
 	var keys []string
 	nk := 600
